@@ -46,11 +46,15 @@ pub struct Case {
     pub no_ref: bool,
     /// run through the plain CLI with the script stored under this relative path
     pub cli_path: Option<String>,
+    /// for law-based oracles: the program this one is compared with, and the edit
+    /// (byte offset, bytes removed, bytes added) that turns it into this one
+    pub companion: Option<String>,
+    pub companion_edit: Option<(usize, usize, usize)>,
 }
 
 impl Case {
     pub fn new(src: String, tag: u32, meta: String) -> Case {
-        Case { src, mode: Mode::Run, tag, meta, nontrivial: true, no_ref: false, cli_path: None }
+        Case { src, mode: Mode::Run, tag, meta, nontrivial: true, no_ref: false, cli_path: None, companion: None, companion_edit: None }
     }
 }
 
